@@ -80,7 +80,7 @@ func (c *c05ctx) collect() {
 		add(c.p.Method("ecdsa/keygen", "DlnProofVerifier", n), "ecdsa/keygen")
 	}
 	for _, top := range c.tops {
-		for _, g := range core.WithClosures(top) {
+		for _, g := range unitFuncs(top) {
 			for _, cs := range core.Calls(g) {
 				call, ok := cs.(*ssa.Call)
 				if !ok {
@@ -323,7 +323,7 @@ type guard struct {
 
 func abortGuards(top *ssa.Function) []guard {
 	var out []guard
-	for _, g := range core.WithClosures(top) {
+	for _, g := range unitFuncs(top) {
 		a := &abortCFG{memo: map[*ssa.BasicBlock]int{}}
 		for _, b := range g.Blocks {
 			if len(b.Instrs) == 0 {
@@ -686,7 +686,7 @@ func indexOrigin(v ssa.Value, depth int) string {
 	}
 	switch x := v.(type) {
 	case *ssa.Parameter:
-		if x.Parent().Parent() != nil {
+		if bindableParam(x) {
 			if a := closureArg(x); a != nil {
 				return indexOrigin(a, depth+1)
 			}
@@ -786,7 +786,7 @@ func partyOrigin(v ssa.Value, depth int) string {
 	case *ssa.Index:
 		return indexOrigin(x.Index, depth+1)
 	case *ssa.Parameter:
-		if x.Parent().Parent() != nil {
+		if bindableParam(x) {
 			if a := closureArg(x); a != nil {
 				return partyOrigin(a, depth+1)
 			}
@@ -846,7 +846,7 @@ func msgOrigin(v ssa.Value, depth int) string {
 	case *ssa.Index:
 		return indexOrigin(x.Index, depth+1)
 	case *ssa.Parameter:
-		if x.Parent().Parent() != nil {
+		if bindableParam(x) {
 			if a := closureArg(x); a != nil {
 				return msgOrigin(a, depth+1)
 			}
